@@ -104,9 +104,10 @@ NextPhase(e, p) ==
 
 \* the phases at or after p: an accepted input may carry the connection forward (one ICE check can connect), never back
 AtOrAfter(e, p) ==
-  LET ps == Entry(e).phases
-      i  == CHOOSE j \in 1..Len(ps) : ps[j] = p
-  IN {ps[j] : j \in i..Len(ps)}
+  IF p \in {"failed", "closed"} THEN {p}          \* terminal states are kept
+  ELSE LET ps == Entry(e).phases
+           i  == CHOOSE j \in 1..Len(ps) : ps[j] = p
+       IN {ps[j] : j \in i..Len(ps)}
 
 Terminal   == {"failed", "closed"}
 \* every state an endpoint may be observed in
